@@ -270,6 +270,8 @@ class C19(Prop):
         lines = io["lines"]
         data = [l for l in lines[1:] if l["marker"] == "o"]
         diamonds = [l for l in lines[1:] if l["marker"] == "D"]
+        if case["fkind"] == "numeric" and case["method"] == "quantile" and tc.quantile_rank_divergent(case["feature"], case["n_bins"]):
+            return None  # np.nanquantile's float rank: outside the exact model
         if case["fkind"] == "numeric" and tc.uniform_edge_tie(case["method"], [None if v is None else float(v) for v in case["feature"]], mos[0]["rows"]):
             return None  # float edge arithmetic of 'uniform' is outside the model
         if len(data) != len(mos):
